@@ -816,17 +816,21 @@ clr_poss(bitint383_t *restrict cand, const bitint383_t *poss)
 		/* nothing to do */
 		return;
 	}
+	/* quickly count them bits */
+	for (bitint_iter_t cnti = 0UL;
+	     (bi383_next(&cnti, cand), cnti); nbits++);
+
 	for (bitint_iter_t posi = 0UL;
 	     (pos = bi383_next(&posi, poss), posi); prev = pos) {
 		int c = 0;
 
 		if (pos < 0) {
-			if (!nbits) {
-				/* quickly count them bits, singleton */
-				for (bitint_iter_t cnti = 0UL;
-				     (bi383_next(&cnti, cand), cnti); nbits++);
-			}
 			pos = nbits + pos + 1;
+		}
+		if (pos <= 0 || pos > (int)nbits) {
+			/* no such position, keep CI and PREV as they are */
+			pos = prev;
+			continue;
 		}
 		if (prev > pos) {
 			/* reset ci */
